@@ -138,3 +138,21 @@ pub fn ascii_lossy(v: &[u8]) -> std::borrow::Cow<'_, str> {
 pub fn noop_execute(_ex: &mut redis_sim::redis::CommandExecutor, _cmd: &redis_sim::redis::Command) -> redis_sim::redis::RespValue {
     redis_sim::redis::RespValue::Integer(0)
 }
+
+/// `recexec` stub kind: CommandExecutor::execute records what it was asked to do (kind, first byte of the field or
+/// value, first byte of the value) instead of doing it: 1 SET v, 2 DEL, 3 HSET f v, 4 HDEL f, 9 anything else.
+pub static mut REC: [(u8, u8, u8); 6] = [(0, 0, 0); 6];
+pub static mut REC_N: usize = 0;
+fn rec_push(k: u8, a: u8, b: u8) { unsafe { if REC_N < 6 { REC[REC_N] = (k, a, b); } REC_N += 1; } }
+fn b0(s: &redis_sim::redis::SDS) -> u8 { let b = s.as_bytes(); if b.len() > 0 { b[0] } else { 0 } }
+pub fn rec_execute(_ex: &mut redis_sim::redis::CommandExecutor, cmd: &redis_sim::redis::Command) -> redis_sim::redis::RespValue {
+    use redis_sim::redis::Command;
+    match cmd {
+        Command::Set { value, .. } => rec_push(1, b0(value), 0),
+        Command::Del(_) => rec_push(2, 0, 0),
+        Command::HSet(_, pairs) => { if pairs.len() > 0 { rec_push(3, b0(&pairs[0].0), b0(&pairs[0].1)); } if pairs.len() > 1 { rec_push(3, b0(&pairs[1].0), b0(&pairs[1].1)); } if pairs.len() > 2 { rec_push(9, 0, 0); } }
+        Command::HDel(_, fields) => { if fields.len() > 0 { rec_push(4, b0(&fields[0]), 0); } if fields.len() > 1 { rec_push(4, b0(&fields[1]), 0); } if fields.len() > 2 { rec_push(9, 0, 0); } }
+        _ => rec_push(9, 0, 0),
+    }
+    redis_sim::redis::RespValue::Integer(0)
+}
